@@ -33,7 +33,7 @@ type genCfg struct {
 
 func defaultGenCfg() genCfg {
 	return genCfg{MaxSteps: 24, MinSteps: 4, ForkPrefix: true, AllowReopen: true, Keys: []string{"a", "b", "c", "d"},
-		WTx: 34, WMine: 12, WPeer: 20, WSync: 8, WWalk: 14, WPlay: 5, WReopen: 4, WTruncate: 0,
+		WTx: 34, WMine: 12, WPeer: 20, WSync: 8, WWalk: 13, WPlay: 8, WReopen: 4, WTruncate: 0,
 		ContractPct: 45, Windows: []int64{0}}
 }
 
@@ -352,7 +352,11 @@ func genPeerOn(rt *rapid.T, nm *hx.NodeMachine, cfg genCfg, parent int) hx.NOp {
 		op.Txs = append(op.Txs, spec)
 	}
 	// sometimes include transactions the node has pending
-	if len(nm.Pool) > 0 && rapid.IntRange(0, 2).Draw(rt, "inclpool") == 0 {
+	inclOdds := 2
+	if parent == nm.Ptr {
+		inclOdds = 1 // a child of the state pointer confirming pending transactions exercises PlayAndRepost's pool handling
+	}
+	if len(nm.Pool) > 0 && rapid.IntRange(0, inclOdds).Draw(rt, "inclpool") == 0 {
 		k := rapid.IntRange(1, len(nm.Pool)).Draw(rt, "npool")
 		for i := 0; i < k; i++ {
 			op.Pool = append(op.Pool, hex.EncodeToString(nm.Pool[i].Txid))
